@@ -28,6 +28,7 @@ const mod = sym.HeliosModule
 // proxyStubs redirects the reverse proxy to the harness model of it.
 var proxyStubs = map[string]string{
 	"(*net/http/httputil.ReverseProxy).ServeHTTP": mod + "/internal/loadbalancer.verifStubProxy",
+	"(*" + mod + "/internal/loadbalancer.LoadBalancer).performHealthCheck": mod + "/internal/loadbalancer.verifStubProbe",
 }
 
 func job(id, pkg, fn string, args ...int64) *sym.Job {
@@ -69,12 +70,14 @@ func allProps() []*Prop {
 		propC03(),
 		propC10(),
 		propC11(),
+		propC12(),
 		propC13(),
 		propC14(),
 		propC15(),
 		propC16(),
 		propC17(),
 		propC18(),
+		propC19(),
 		propC20(),
 		propC02(),
 		propC04(),
@@ -112,6 +115,9 @@ func propC09() *Prop {
 			}
 			js = append(js, job("C09h/cleanup", "ratelimiter", "VerifC09Cleanup"))
 			js = append(js, lbJob("C09f/gate[ServeHTTP + limiter + breaker]", "VerifC09Gate"))
+			js = append(js, threadJob(job("C09g/no-double-spend[2 threads, existing bucket]", "ratelimiter", "VerifC09Concurrent", 2, 1), 2))
+			js = append(js, threadJob(job("C09g/no-double-spend[2 threads, new client]", "ratelimiter", "VerifC09Concurrent", 2, 0), 2))
+			js = append(js, threadJob(job("C09g/no-double-spend[3 threads, existing bucket]", "ratelimiter", "VerifC09Concurrent", 3, 1), int(tierPick(tier, 1, 2))))
 			for _, j := range js {
 				arith(j)
 			}
@@ -138,6 +144,10 @@ func propC07() *Prop {
 			}
 			js = append(js, neg(job("C07a/negative-twin", "circuitbreaker", "VerifC07NegStep")))
 			js = append(js, lbJob("C07c/wiring[ServeHTTP + breaker + scripted backend]", "VerifC07Wiring"))
+			js = append(js, threadJob(job("C07b/concurrent-admission[2 threads]", "circuitbreaker", "VerifC07Concurrent", 2), 2))
+			if tier == "thorough" {
+				js = append(js, threadJob(job("C07b/concurrent-admission[3 threads]", "circuitbreaker", "VerifC07Concurrent", 3), 2))
+			}
 			return js
 		},
 		Assumptions: commonAssumptions,
@@ -317,6 +327,7 @@ func propC04() *Prop {
 					js = append(js, j)
 				}
 			}
+			js = append(js, threadJob(lbJob("C04c/expiry-check-racing-a-fresh-ejection", "VerifC04Race"), int(tierPick(tier, 2, 3))))
 			for _, j := range js {
 				j.MaxPaths = 400000
 			}
@@ -361,6 +372,7 @@ func propC13() *Prop {
 					js = append(js, j)
 				}
 			}
+			js = append(js, threadJob(lbJob("C13b/two-interleaved-requests[gauge and mirror at quiescence]", "VerifC13Interleaved"), int(tierPick(tier, 2, 3))))
 			return js
 		},
 		Assumptions: append([]string{"(*httputil.ReverseProxy).ServeHTTP is replaced by a model over a scripted backend: forward status 200..599 + body | default error handler 502 | abort after the headers with panic(http.ErrAbortHandler); natively the REAL ReverseProxy runs over a scripted RoundTripper", "the client connection is a recording ResponseWriter implementing net/http's documented contract; the harness recovers handler panics like net/http's server", "two backends in arbitrary health state (flag, window end zero or within 2^40ns of now)"}, commonAssumptions...),
@@ -619,5 +631,61 @@ func propC20() *Prop {
 			"thorough": "<= 5 operations",
 		},
 		Outside: []string{"the WebSocket byte relay itself", "concurrent pool use (pairwise under C12)"},
+	}
+}
+
+func threadJob(j *sym.Job, preempt int) *sym.Job {
+	j.Threads = true
+	j.Preempt = preempt
+	j.ValidatePaths = 0
+	return j
+}
+
+var pairNames = []string{
+	"NextBackend[weighted_round_robin] || MarkBackendUnhealthy", "NextBackend[ip_hash] || MarkBackendUnhealthy", "NextBackend[ip_hash_consistent] || MarkBackendUnhealthy",
+	"NextBackend[round_robin] || MarkBackendUnhealthy", "NextBackend[least_connections] || gauge update", "ListBackends || gauge update", "GetMetrics || GetMetrics",
+	"GetMetrics || RecordBackendRequest+UpdateBackendHealth+UpdateBackendConnections", "Allow || Allow (existing bucket)", "Allow || Allow (first requests)", "Allow || cleanup",
+	"Execute || Execute (LB callback installed)", "Execute || State+Counts", "pool Get || Put", "pool Put || cleanup", "pool Get || Shutdown", "AddBackend || NextBackend+ListBackends",
+	"RemoveBackend || NextBackend+ListBackends", "SetStrategy || NextBackend+ListBackends", "IsBackendHealthy(expiry) || MarkBackendUnhealthy", "ServeHTTP || ServeHTTP", "RecordRequest/Response || GetMetrics",
+}
+
+func propC12() *Prop {
+	return &Prop{
+		ID: "C12", Title: "Concurrency safety: no data races, panics or deadlocks - pairwise, at lock/atomic granularity",
+		Jobs: func(tier string) []*sym.Job {
+			var js []*sym.Job
+			for i, n := range pairNames {
+				js = append(js, threadJob(lbJob(fmt.Sprintf("C12/pair[%s]", n), "VerifC12Pair", int64(i)), int(tierPick(tier, 2, 3))))
+			}
+			js = append(js, threadJob(lbJob("C12/pair[health-check tick || Stop]", "VerifC19Stop", 0, 1), int(tierPick(tier, 2, 3))))
+			js = append(js, threadJob(lbJob("C12/pair[Stop || Stop]", "VerifC19Stop", 1, 1), int(tierPick(tier, 2, 3))))
+			js = append(js, threadJob(lbJob("C12/Stop; late tick; Stop", "VerifC19Stop", 2, 1), 1))
+			js = append(js, threadJob(job("C12/pair[breaker Execute x2 at the open->half-open boundary]", "circuitbreaker", "VerifC07Concurrent", 2), 2))
+			return js
+		},
+		Assumptions: append([]string{"thread mode: every simulated goroutine yields before each mutex acquisition, each sync/atomic and sync.Map operation, WaitGroup operation, context cancel/Done, go statement and thread exit; the scheduler's choice is a decision of the exploration, bounded by a pre-emption budget; sequential consistency between yield points", "built-in assertions on every schedule: data race = two accesses to one memory cell, at least one a write, not both atomic, unordered by happens-before (vector clocks over mutex release/acquire, atomics, WaitGroup, fork/join, channel close); deadlock = unfinished threads, none enabled; WaitGroup misuse = Add from zero while a Wait is in progress; unrecovered panic", "race counterexamples are replayed natively as the same two operations under `go test -race` (real goroutines; the race detector's happens-before analysis does not need the exact schedule)"}, commonAssumptions...),
+		Bounds: map[string]string{
+			"quick":    "24 operation pairs from small pre-states, 2 threads (+ goroutines the code itself spawns), <= 2 pre-emptions",
+			"thorough": "<= 3 pre-emptions",
+		},
+		Outside: []string{"more than two top-level threads, 8-64 goroutine mixes", "schedules below lock/atomic granularity, weak memory", "goroutines inside net/http"},
+	}
+}
+
+func propC19() *Prop {
+	return &Prop{
+		ID: "C19", Title: "Graceful shutdown completes, drains requests and stops probing - balancer side",
+		Jobs: func(tier string) []*sym.Job {
+			var js []*sym.Job
+			for n := int64(1); n <= tierPick(tier, 2, 2); n++ {
+				js = append(js, threadJob(lbJob(fmt.Sprintf("C19/tick-racing-Stop[N=%d]", n), "VerifC19Stop", 0, n), int(tierPick(tier, 2, 3))))
+			}
+			js = append(js, threadJob(lbJob("C19/Stop-racing-Stop", "VerifC19Stop", 1, 1), int(tierPick(tier, 2, 3))))
+			js = append(js, threadJob(lbJob("C19/Stop-then-late-tick-then-Stop[N=2]", "VerifC19Stop", 2, 2), 1))
+			return js
+		},
+		Assumptions: append([]string{"claimed for the balancer side only: LoadBalancer.Stop, the health-check tick body (checkBackendsHealth) with its probe goroutines, and the WebSocket pool's Shutdown; http.Server.Shutdown, request draining, signals and the shutdown-timeout bound are net/http / OS and not encodable", "performHealthCheck is replaced by a stub that counts the probe, yields and fails like a refused connection (natively the real probe dials 127.0.0.1:1); the balancer context is a cancellable-context model"}, commonAssumptions...),
+		Bounds:  map[string]string{"quick": "1-2 backends, 2 idle pooled connections, 2 top-level threads + probe goroutines, <= 2 pre-emptions", "thorough": "<= 3 pre-emptions"},
+		Outside: []string{"http.Server.Shutdown / in-flight client requests / SIGTERM handling", "the ticker loop itself (its body is called directly)"},
 	}
 }
